@@ -487,3 +487,5 @@ def run(ctx):
     tables.flag_predicates(r13, ctx.facts)
     from .. import boundaries as _b
     _b.check_predicates(ctx, 'C09.RP', 'C09')
+    from .. import boundaries as _b
+    _b.check_updates(ctx, 'C09.RU', 'C09')
